@@ -346,6 +346,14 @@ pub fn bases(thorough: bool) -> Vec<Base> {
         build_base("winner-of-a-one-vote-election-cut-off-with-an-append-others-reelected", &[Default(6), Ev(Drop(0)), Default(2), Ev(Isolate(0)), UntilLeaderOtherThan(0), AppendAt(0)]),
         // candidate 0 has been granted node 1's vote but the reply is stuck in the network; its Vote request to node 2 was lost
         build_base("candidate-with-one-vote-reply-stuck-in-the-network", &[Default(6), Ev(Drop(0)), Ev(Hold(0))]),
+        // an entry is on nodes 0 and 1 but leader 0 is cut off before it sees the acknowledgement (commit 0
+        // everywhere, node 2 never got it); node 1 wins the next term holding the older-term entry
+        // uncommitted; the partition heals now
+        build_base("leader-change-with-a-replicated-uncommitted-entry", &[Settle, AppendAtLeader, Default(1), Ev(Isolate(0)), UntilLeaderOtherThan(0), Ev(Heal)]),
+        // leader 0 is cut off holding a private entry X; node 1 wins term 2, appends Y, node 2 stores and
+        // acknowledges it, node 1 commits Y; then the partition FLIPS (0 back, 1 cut off) before the commit
+        // index reaches node 2: logs of equal length that differ, node 2 does not know Y is committed
+        build_base("partition-flips-after-new-leader-committed-alone", &[Settle, Ev(Isolate(0)), AppendAt(0), Default(4), Settle, AppendAtLeaderOtherThan(0), Default(3), Ev(Heal), Ev(Isolate(1))]),
         // a follower was cut off while an entry was committed; it rejoins now
         build_base("lagging-follower-rejoins", &[Settle, Ev(Isolate(2)), AppendAtLeader, Settle, Ev(Heal)]),
     ];
@@ -581,6 +589,13 @@ pub fn deviations(w: &World, cfg: &E2Cfg, base_appends: u8) -> Vec<Event> {
         }
         if w.net.len() >= 2 {
             d.push(Event::Defer(0));
+        }
+        // one storage fault per execution: the append that the head message is about to cause fails
+        if let crate::world::Msg::Req(r) = &_head.msg {
+            let t = r.v_fields()[2] as usize;
+            if r.v_kind() == crate::raft::V_APPEND && w.storage_faults == 0 && !w.nodes[t].storage.fail_next_append {
+                d.push(Event::FailAppend(t as u8));
+            }
         }
     } else {
         for i in 0..N {
